@@ -258,9 +258,6 @@ sendLastSegment(CS101_FileServer self, IMasterConnection connection, int oa)
 
     DEBUG_PRINT("Send LAST SEGMENT (NoS=%i, CHS=%i)\n", self->currentSectionNumber, self->sectionChecksum);
 
-    self->fileChecksum += self->sectionChecksum;
-    self->sectionChecksum = 0;
-
     IMasterConnection_sendASDU(connection, newAsdu);
 }
 
@@ -574,6 +571,9 @@ CS101_FileServer_handleAsdu(void* parameter, IMasterConnection connection,  CS10
 
                     if (self->state == WAITING_FOR_SECTION_ACK)
                     {
+                        /* the section is complete only now: a repeated section (NEG_ACK_SECTION) must not be counted twice */
+                        self->fileChecksum += self->sectionChecksum;
+
                         self->currentSectionNumber++;
 
                         int nextSectionSize = self->selectedFile->getSectionSize(self->selectedFile, self->currentSectionNumber - 1);
@@ -737,6 +737,7 @@ CS101_FileServer_handleAsdu(void* parameter, IMasterConnection connection,  CS10
                             self->currentSectionNumber = 1;
                             self->currentSectionOffset = 0;
                             self->fileChecksum = 0;
+                            self->sectionChecksum = 0;
                             self->currentSectionSize = self->selectedFile->getSectionSize(self->selectedFile, 0);
 
                             DEBUG_PRINT("Send SECTION READY\n");
@@ -876,9 +877,6 @@ CS101_FileServer_runTask(void* parameter, IMasterConnection connection)
                     if (sendSegment(self, connection, self->oa) == false)
                     {
                         sendLastSegment(self, connection, self->oa);
-
-                        self->fileChecksum += self->sectionChecksum;
-                        self->sectionChecksum = 0;
 
                         self->lastSendTime = Hal_getMonotonicTimeInMs();
                         self->state = WAITING_FOR_SECTION_ACK;
